@@ -831,8 +831,6 @@ def check_case(case, ctx):
             hist[cell_key(a, site)] = hist.get(cell_key(a, site), 0) + 1
             ctx.label('ann:' + a[0], 'cat:' + site['cat'], 'callable:' + c['kind'], 'pair')
             ctx.label('clause1' if verdict == AR.APPLICABLE else 'clause2')
-    ctx.extra['pairs_applicable'] = ctx.extra.get('pairs_applicable', 0) + n1
-    ctx.extra['pairs_inapplicable'] = ctx.extra.get('pairs_inapplicable', 0) + n2
     if n1 and n2:
         ctx.note_nontrivial(case)
         ctx.sample({'comments': [cm[0] for cm in build(case)['comments']][:2], 'clause1': n1, 'clause2': n2}, 3)
@@ -1031,10 +1029,6 @@ def run_shard(ctx, spec):
                                             'parameter + return = %d cases; multi-annotation APIs are sampled'
                                             % (len(FORMS), len(KIND_NAMES), len(cases)))
     ctx.hyp(api(), spec['n'])
-
-
-def known_shape(case, v):
-    return None
 
 
 def health(agg, tier):
